@@ -102,8 +102,8 @@ def row_columns(doc: docgen.Doc):
 class C12:
     PROPERTY = 'C12'
     TIERS = {
-        'quick': {'runs': 6000, 'wall_cap_s': 300, 'chunk': 10},
-        'thorough': {'runs': 130000, 'wall_cap_s': 1500, 'chunk': 20},
+        'quick': {'runs': 6000, 'wall_cap_s': 300, 'chunk': 40},
+        'thorough': {'runs': 130000, 'wall_cap_s': 1500, 'chunk': 50},
     }
     RULE = ('75% doc runs: a docgen document (1-4 spines, <=25 rows, swarm features) with 0..4 cells replaced by malformed text '
             '(strict family: unlexable character adjacent to a token, truncated token, wrong order, bad chord; lexable-tail family: '
